@@ -405,6 +405,7 @@ def apply_loops(body, loops):
         bodystart = loops[k][2] if len(loops[k]) > 2 else []
         loopend = loops[k][3] if len(loops[k]) > 3 else []
         bodyend = loops[k][4] if len(loops[k]) > 4 else []
+        before = loops[k][5] if len(loops[k]) > 5 else []
         o = find_at_depth0(m_, pos, len(m_), ["{"])
         if o < 0:
             raise AnchorLost("loop #%d has no body" % k)
@@ -431,6 +432,9 @@ def apply_loops(body, loops):
                 raise AnchorLost("for loop #%d without `in`" % k)
             p = pos + inpos.end()
             body = body[:p] + " " + binder + ":" + body[p:]
+        if before:
+            # position-only insert right before the loop statement (ghost snapshots of the state the loop starts from)
+            body = body[:ls] + "".join(indent[:-4] + l + "\n" for l in before) + body[ls:]
         m_ = mask(body)
         # offsets of earlier loops are unchanged because we go backwards
     return body
@@ -715,13 +719,15 @@ def parse_template(tpl_text, base_dir=None, hashes=None):
             a = parse_attrs(" ".join(toks[1:]))
             payload = []
             prev = cur.loops.get(k)
-            cur.loops[k] = (a.get("binder"), payload, prev[2] if prev else [], prev[3] if prev else [], prev[4] if prev else [])
+            cur.loops[k] = (a.get("binder"), payload, prev[2] if prev else [], prev[3] if prev else [], prev[4] if prev else [], prev[5] if prev and len(prev) > 5 else [])
             target = payload
-        elif word in ("loopstart", "loopend", "loopbodyend"):
+        elif word in ("loopstart", "loopend", "loopbodyend", "loopbefore"):
             k = int(rest.split()[0])
             payload = []
-            prev = list(cur.loops.get(k) or (None, [], [], [], []))
-            prev[{"loopstart": 2, "loopend": 3, "loopbodyend": 4}[word]] = payload
+            prev = list(cur.loops.get(k) or (None, [], [], [], [], []))
+            while len(prev) < 6:
+                prev.append([])
+            prev[{"loopstart": 2, "loopend": 3, "loopbodyend": 4, "loopbefore": 5}[word]] = payload
             cur.loops[k] = tuple(prev)
             target = payload
         elif word == "start":
